@@ -537,7 +537,13 @@ def oracle_c06(an):
                       and ev['f']['sid'] == sid and lo <= ev['seq'] < hi]
             gv = [g['n'] for g in grants]
             fv = [f['f']['n'] for f in frames]
-            if gv != fv:
+            if role_ == 'requester' and ia.get('api') == 'awaitable':
+                # credit is granted by the library's CollectorSubscriber: every grant is the rate limit
+                limit = ia.get('sub', {}).get('initial_n') or 0x7FFFFFFF
+                if any(v != limit for v in fv):
+                    V('collector_grant_wrong', 'interaction %d: CollectorSubscriber(limit_rate=%d) granted %s' % (iid, limit, fv[:6]),
+                      frames[0]['seq'], ep=ep, role=role_)
+            elif gv != fv:
                 V('credit_not_transmitted', 'interaction %d: application granted %s, REQUEST_N frames queued %s'
                   % (iid, gv[:8], fv[:8]), (frames or grants or [{'seq': None}])[0]['seq'], ep=ep, role=role_)
             if role_ == 'requester':
